@@ -77,4 +77,237 @@ theorem rewrite_wellformed (o : Opts) (s : Seg) :
     rw [show T + (E - T) = E by omega]
     exact this
 
+/-- **The mdat payload is the stored payload**, it starts right after the mdat
+header, the mdat box keeps its size and directly follows the moof. -/
+theorem rewrite_mdat_identical (o : Opts) (s : Seg) :
+    (rewrite o s).payload = s.payload ∧
+    (rewrite o s).payloadStart = (rewrite o s).mdatPos + s.mdatHdr ∧
+    (rewrite o s).mdatSize = s.mdatHdr + s.payload.length ∧
+    (rewrite o s).payloadStart + (rewrite o s).payload.length
+      = (rewrite o s).mdatPos + (rewrite o s).mdatSize := by
+  refine ⟨rfl, rfl, rfl, ?_⟩
+  simp only [rewrite_payloadStart, rewrite_mdatPos, rewrite_mdatSize]
+  show _ + s.payload.length = _
+  omega
+
+/-- **The trun addresses the payload.**  The base the served tfhd defines is the
+position of the served moof, the trun carries a data_offset field, `base +
+data_offset` is the first payload byte, and the sample table (hence Σ sample
+sizes) is the stored one – whatever base / data_offset the stored segment had. -/
+theorem rewrite_trun_points (o : Opts) (s : Seg) (h : shapeOk s = true) :
+    (rewrite o s).base = (rewrite o s).moofPos ∧
+    trunDop (rewrite o s).traf = true ∧
+    ((rewrite o s).base : Int) + trunOffset (rewrite o s).traf = ((rewrite o s).payloadStart : Int) ∧
+    trunSizes (rewrite o s).traf = trunSizes s.traf := by
+  obtain ⟨p, hp⟩ := rewrite_traf_eq o s
+  have htr : (eT o s).any isTrun = true := by
+    unfold eT
+    rw [any_trafEdited isTrun stable_isTrun]
+    exact shape_trun s h
+  refine ⟨rfl, ?_, ?_, ?_⟩
+  · unfold trunDop
+    rw [hp, firstSome_late' _ (by intros; rfl) (by intros; rfl)]
+    exact trunDop_trafEdited o s.traf (shape_trun s h)
+  · rw [hp, rewrite_base, rewrite_payloadStart, ← eMdatStart_eq]
+    exact trunOffset_late _ _ _ _ _ _ _ _ htr
+  · unfold trunSizes
+    rw [hp, firstSome_late _ stable_trunSizes]
+    unfold eT
+    rw [firstSome_trafEdited _ stable_trunSizes]
+
+/-- Σ sample sizes = payload length is preserved -/
+theorem rewrite_sizes_sum (o : Opts) (s : Seg) (h : shapeOk s = true)
+    (hin : (trunSizes s.traf).sum = s.payload.length) :
+    (trunSizes (rewrite o s).traf).sum = (rewrite o s).payload.length := by
+  rw [(rewrite_trun_points o s h).2.2.2]
+  exact hin
+
+
+/-- the first senc sample entry of the served segment: position of the senc box
+in the traf + the offset of its first entry -/
+def sencEntryPos (r : Out) : Nat := r.trafPos + 8 + offsetOf isSenc r.traf + sencRel r.traf
+
+/-- **The saio addresses the first senc sample entry** unless `bugs=saio`: for an
+encrypted segment (senc and saio present, the stored saio has the one entry a
+single-run fragment has) the served saio has exactly one offset `w` with
+`base + w` = position of the first senc sample entry, and that senc box is a
+child of the served traf at the position used. -/
+theorem rewrite_saio_points (o : Opts) (s : Seg)
+    (hbug : o.bugSaio = false) (hsenc : hasSenc s.traf = true)
+    (x0 : Nat) (hsaio : saioOffsets s.traf = some [x0]) :
+    ∃ w, saioOffsets (rewrite o s).traf = some [w] ∧
+      (rewrite o s).base + w = sencEntryPos (rewrite o s) ∧
+      ∃ b, b ∈ (rewrite o s).trafKids ∧ b.typ = "senc" ∧
+        b.pos + sencRel (rewrite o s).traf = sencEntryPos (rewrite o s) := by
+  obtain ⟨p, hp⟩ := rewrite_traf_eq o s
+  have hS : hasSenc (eT o s) = true := by
+    unfold eT hasSenc
+    rw [any_trafEdited isSenc stable_isSenc]
+    exact hsenc
+  have hsaioAny : s.traf.any isSaio = true := by
+    rw [any_eq_firstSome]
+    have : firstSome (gIs isSaio) s.traf = (saioOffsets s.traf).map (fun _ => ()) := by
+      unfold saioOffsets
+      generalize s.traf = t
+      induction t with
+      | nil => rfl
+      | cons y r ih => cases y <;> simp [firstSome, gIs, isSaio, gSaioOffsets, ih]
+    rw [this, hsaio]
+    rfl
+  -- pass 1 sees exactly one offset
+  have h1 : ∃ x, saioOffsets (eT o s) = some [x] := by
+    unfold eT trafEdited
+    simp only
+    split
+    · refine ⟨0, saioOffsets_resetSaio _ ?_⟩
+      rw [any_eq_firstSome, firstSome_forceDop _ (by intros; rfl)]
+      split
+      · rw [firstSome_insertPiffs _ stable_isSaio.piff, firstSome_trafTimed _ stable_isSaio.tfdt,
+          ← any_eq_firstSome]
+        exact hsaioAny
+      · rw [firstSome_trafTimed _ stable_isSaio.tfdt, ← any_eq_firstSome]
+        exact hsaioAny
+    · exact ⟨x0, by rw [saioOffsets_edit14, hsaio]⟩
+  obtain ⟨x, hx⟩ := h1
+  have hoff : offsetOf isSenc (rewrite o s).traf = offsetOf isSenc (eT o s) := by
+    rw [hp, offsetOf_late_senc]
+  have hrel : sencRel (rewrite o s).traf = sencRel (eT o s) := by
+    unfold sencRel
+    rw [hp, firstSome_late _ stable_sencRel]
+  have hle1 := eMoofPos_le_trafPos o s
+  refine ⟨eWant o s, ?_, ?_, ?_⟩
+  · rw [hp, saioOffsets_late _ _ _ _ _ x _ _ _ hx, hS, hbug]
+    congr 1
+    by_cases hc : saioReset o s.traf = true
+    · by_cases he : p = eWant o s <;> simp [hc, he]
+    · by_cases he : x = eWant o s <;> simp [hc, he]
+  · unfold sencEntryPos
+    rw [rewrite_base, rewrite_trafPos, hoff, hrel]
+    unfold eWant
+    omega
+  · have hany : (rewrite o s).traf.any isSenc = true := by
+      rw [hp, any_late isSenc stable_isSenc]
+      exact hS
+    obtain ⟨y, _, hy, hm⟩ := mem_place_offsetOf isSenc (eTrafPos o s + 8) (rewrite o s).traf hany
+    refine ⟨⟨y.name, eTrafPos o s + 8 + offsetOf isSenc (rewrite o s).traf, y.size⟩, ?_, ?_, ?_⟩
+    · rw [rewrite_trafKids]
+      exact hm
+    · cases y <;> simp [isSenc] at hy
+      rfl
+    · unfold sencEntryPos
+      rw [rewrite_trafPos]
+
+/-- **senc and trun list the same samples as stored**: the sample table of the
+trun and the entry list of the senc are the stored ones (so equal counts are
+preserved), and every PIFF clone in the served traf carries exactly the senc's
+entries. -/
+theorem rewrite_senc_trun_counts (o : Opts) (s : Seg) (h : shapeOk s = true) :
+    trunSizes (rewrite o s).traf = trunSizes s.traf ∧
+    sencEntries (rewrite o s).traf = sencEntries s.traf ∧
+    (∀ ov e, TBox.piff ov e ∈ (rewrite o s).traf → sencEntries s.traf = some e) := by
+  obtain ⟨p, hp⟩ := rewrite_traf_eq o s
+  refine ⟨(rewrite_trun_points o s h).2.2.2, ?_, ?_⟩
+  · unfold sencEntries
+    rw [hp, firstSome_late _ stable_sencEntries]
+    unfold eT
+    rw [firstSome_trafEdited _ stable_sencEntries]
+  · intro ov e hm
+    have hfin : PiffsFrom (firstSenc s.traf) (rewrite o s).traf := by
+      rw [hp]
+      apply piffs_late
+      exact piffs_trafEdited o s.traf (shape_nopiff s h)
+    rw [sencEntries_firstSenc, hfin ov e hm]
+    rfl
+
+
+/-- **A stale saio offset can only come from `bugs=saio`** (contrapositive of
+`rewrite_saio_points`). -/
+theorem rewrite_saio_stale_only_with_bug (o : Opts) (s : Seg)
+    (hsenc : hasSenc s.traf = true) (x0 : Nat) (hsaio : saioOffsets s.traf = some [x0])
+    (hstale : ¬ ∃ w, saioOffsets (rewrite o s).traf = some [w] ∧
+      (rewrite o s).base + w = sencEntryPos (rewrite o s)) :
+    o.bugSaio = true := by
+  cases hb : o.bugSaio with
+  | true => rfl
+  | false =>
+    obtain ⟨w, h1, h2, _⟩ := rewrite_saio_points o s hb hsenc x0 hsaio
+    exact absurd ⟨w, h1, h2⟩ hstale
+
+/-- **`bugs=saio` is the only permitted deviation and it deviates in nothing
+else**: with and without the option the served segment has the same boxes at the
+same positions with the same sizes at every level, the same base, payload and
+length, and the same traf children up to the offsets stored in the saio. -/
+theorem rewrite_bug_changes_only_saio (o : Opts) (s : Seg) :
+    let r1 := rewrite { o with bugSaio := true } s
+    let r0 := rewrite { o with bugSaio := false } s
+    r1.top = r0.top ∧ r1.moofPos = r0.moofPos ∧ r1.moofSize = r0.moofSize ∧
+    r1.moofKids = r0.moofKids ∧ r1.trafPos = r0.trafPos ∧ r1.trafSize = r0.trafSize ∧
+    r1.trafKids = r0.trafKids ∧ r1.base = r0.base ∧ r1.mdatPos = r0.mdatPos ∧
+    r1.mdatSize = r0.mdatSize ∧ r1.payloadStart = r0.payloadStart ∧ r1.payload = r0.payload ∧
+    r1.total = r0.total ∧ r1.traf.map eraseSaio = r0.traf.map eraseSaio := by
+  intro r1 r0
+  obtain ⟨p1, hp1⟩ := rewrite_traf_eq { o with bugSaio := true } s
+  obtain ⟨p0, hp0⟩ := rewrite_traf_eq { o with bugSaio := false } s
+  refine ⟨rfl, rfl, rfl, rfl, rfl, rfl, ?_, rfl, rfl, rfl, rfl, rfl, rfl, ?_⟩
+  · show (rewrite _ s).trafKids = (rewrite _ s).trafKids
+    rw [rewrite_trafKids, rewrite_trafKids, hp1, hp0, tboxes_late, tboxes_late]
+    rfl
+  · show (rewrite _ s).traf.map eraseSaio = (rewrite _ s).traf.map eraseSaio
+    rw [hp1, hp0, late_erase, late_erase]
+    rfl
+
+/-- **Pass 2 rewrites in place.**  Every byte range `post_encode` overwrites after
+the sizes have been back-patched lies inside the fields of the box it belongs to:
+the trun patch covers sample_count, data_offset (and first_sample_flags) right
+behind the 12-byte full-box header of the served trun, the saio patch is the
+served saio box exactly.  No neighbouring box and no size field is touched. -/
+theorem rewrite_patches_in_place (o : Opts) (s : Seg) (h : shapeOk s = true) (p : Nat × Nat)
+    (hp : p ∈ (rewrite o s).patches) :
+    ∃ b, b ∈ (rewrite o s).trafKids ∧
+      ((b.typ = "trun" ∧ p.1 = b.pos + 12 ∧ p.1 + p.2 ≤ b.pos + b.size) ∨
+       (b.typ = "saio" ∧ p.1 = b.pos ∧ p.2 = b.size)) := by
+  obtain ⟨p1, ht⟩ := rewrite_traf_eq o s
+  have hk : (rewrite o s).trafKids = place (eTrafPos o s + 8) (tboxes (eT o s)) := by
+    rw [rewrite_trafKids, ht, tboxes_late]
+  rw [hk]
+  have htr : (eT o s).any isTrun = true := by
+    unfold eT
+    rw [any_trafEdited isTrun stable_isTrun]
+    exact shape_trun s h
+  cases rewrite_patches_cases o s p hp with
+  | inl hc =>
+    obtain ⟨b, hb, hty, hpos, hsz⟩ := trun_box_bound (eTrafPos o s + 8) (eT o s) htr
+      (trunDop_trafEdited o s.traf (shape_trun s h))
+    refine ⟨b, hb, Or.inl ⟨hty, ?_, ?_⟩⟩ <;> rw [hc] <;> simp only <;> omega
+  | inr hc =>
+    obtain ⟨hc, hany⟩ := hc
+    refine ⟨_, saio_box_exact (eTrafPos o s + 8) (eT o s) hany, Or.inr ⟨rfl, ?_, ?_⟩⟩ <;> rw [hc]
+
+
+/-! ### non-vacuity: a concrete non-trivial instance satisfies every hypothesis, and
+the conclusions fail at concrete points outside them -/
+
+example : shapeOk exSeg = true := by decide
+example : hasSenc exSeg.traf = true ∧ saioOffsets exSeg.traf = some [999] := by decide
+example : (rewrite (exOpts false) exSeg).top.map (·.typ) = ["styp", "emsg", "moof", "mdat", "styp"] ∧
+    (rewrite (exOpts false) exSeg).trafKids.map (·.typ) =
+      ["tfhd", "tfdt", "uuid", "saiz", "saio", "senc", "trun"] := by decide
+example : saioOffsets (rewrite (exOpts false) exSeg).traf = some [213] ∧
+    (rewrite (exOpts false) exSeg).base + 213 = sencEntryPos (rewrite (exOpts false) exSeg) ∧
+    trunOffset (rewrite (exOpts false) exSeg).traf = 317 ∧
+    (rewrite (exOpts false) exSeg).patches = [(347, 12), (251, 20)] := by decide
+/-- with `bugs=saio` the served saio really is stale (the deviation the property permits) -/
+example : ¬ ∃ w, saioOffsets (rewrite (exOpts true) exSeg).traf = some [w] ∧
+    (rewrite (exOpts true) exSeg).base + w = sencEntryPos (rewrite (exOpts true) exSeg) := by
+  intro ⟨w, h1, h2⟩
+  have : saioOffsets (rewrite (exOpts true) exSeg).traf = some [111] := by decide
+  rw [this] at h1
+  injection h1 with h1
+  injection h1 with h1
+  subst h1
+  revert h2
+  decide
+/-- outside `shapeOk` (no trun) the trun conclusions fail -/
+example : shapeOk exNoTrun = false ∧ trunDop (rewrite (exOpts false) exNoTrun).traf = false := by decide
+
 end DashLive.SegmentRewrite
